@@ -745,6 +745,10 @@ func (g *scenGen) expr(vars []string) Expr {
 				// index differs from case to case and with the order of presentation
 				return Expr{{K: 'v', T: S(Pick(r, []string{"ab", "file1", "b", ""}))}, {K: 'v', T: S(Pick(r, rxPatterns))}, {K: 'b', B: "regex"}}
 			}
+			if r.Chance(1, 4) {
+				// length of a string counts bytes: strings with multi-byte characters
+				return Expr{{K: 'v', T: S(Pick(r, []string{"héllo", "é", "日本", "ab", ""}))}, {K: 'u', U: "len"}, {K: 'v', T: I(int64(r.Intn(7)))}, {K: 'b', B: Pick(r, []string{"eq", "le", "gt"})}}
+			}
 			return Expr{{K: 'v', T: S("ab")}, {K: 'v', T: S(Pick(r, []string{"a", "b"}))}, {K: 'b', B: Pick(r, []string{"prefix", "suffix", "contains"})}}
 		}
 	}
